@@ -116,7 +116,31 @@ func VerifPrices() {
 			}
 		}
 	} else {
-		// alternative paths: a pair declared directly with V must be priced directly
+		// alternative paths: the shortest chain of latest declarations is used; among chains of equal
+		// length the one through the commodity whose name sorts first (names: A < B < C < V)
+		nameOrder := []int{1, 2, 3, 0}
+		var bfs [4]dir
+		bfs[0] = dir{true, one}
+		queue := []int{0}
+		for len(queue) > 0 {
+			c := queue[0]
+			queue = queue[1:]
+			for _, n := range nameOrder {
+				if pr[n][c].ok && !bfs[n].ok {
+					bfs[n] = dir{true, Multiply(pr[n][c].p, bfs[c].p)}
+					queue = append(queue, n)
+				}
+			}
+		}
+		for c := 1; c < 4; c++ {
+			got, err := np.Price(com[c])
+			if bfs[c].ok {
+				v.Assert(err == nil && got.Equal(bfs[c].p), "price-is-shortest-chain-of-latest-declarations")
+			} else {
+				v.Assert(err != nil, "unconnected-commodity-has-no-price")
+			}
+		}
+		// in particular a pair declared directly with V must be priced directly
 		for c := 1; c < 4; c++ {
 			got, err := np.Price(com[c])
 			if pr[c][0].ok {
@@ -129,7 +153,5 @@ func VerifPrices() {
 	}
 	pv, errv := np.Price(com[0])
 	v.Assert(errv == nil && pv.Equal(one), "valuation-commodity-costs-1")
-	if !zzCyclic[shape] {
-		v.Observe("pA", np[com[1]]) // (with alternative paths the value depends on the map order: not comparable natively)
-	}
+	v.Observe("pA", np[com[1]])
 }
